@@ -155,6 +155,9 @@ inductive Op
   | req (y : Nat) (c : Cmd)
   /-- `UserManager.enable_user` (Python API; no request exists) -/
   | enableUser (y : Nat) (u : String)
+  /-- `UserManager.add_user(u, p, is_admin, bypass_can_perform_action=True)` (Python API: how `Node.__init__` and
+  `PrimaiteGame.from_config` load the configured users; no guard on node power or service state) -/
+  | addUserBypass (y : Nat) (u p : String) (admin : Bool)
   /-- `Node.local_login` (Python API) -/
   | localLogin (y : Nat) (u p : String)
   /-- `Node.local_logout` (Python API) -/
@@ -514,6 +517,14 @@ def opEnableUser (n : Net) (y : Nat) (u : String) : Net × Out :=
     | none => (n, .failure)
     | some w => if w.disabled then (n.upd y (Node.setEnabled u), .success) else (n, .failure)
 
+/-- `UserManager.add_user(..., bypass_can_perform_action=True)`: only the name check is left -/
+def opAddUserBypass (n : Net) (y : Nat) (u p : String) (adm : Bool) : Net × Out :=
+  match n.node y with
+  | none => (n, .unreachable)
+  | some nd =>
+    if (nd.findUser u).isNone then (n.upd y (Node.addUser { name := u, password := p, admin := adm }), .success)
+    else (n, .failure)
+
 /-- `_process_local_login`, `_create_local_connection`, `LocalTerminalConnection.execute` (only while the terminal is
 RUNNING); `K` = what `Node.apply_request(command)` does; the handler answers "success" whatever happened -/
 def opLocalCmdK (K : Net → Net × Out) (n : Net) (y : Nat) (u p : String) : Net × Out :=
@@ -656,6 +667,7 @@ def opSetBlock (n : Net) (x y : Nat) (on : Bool) : Net × Out :=
 def step (n : Net) : Op → Net × Out
   | .req y c => execCmd c n y
   | .enableUser y u => opEnableUser n y u
+  | .addUserBypass y u p adm => opAddUserBypass n y u p adm
   | .localLogin y u p => opLocalLogin n y u p
   | .localLogout y => opLocalLogout n y
   | .tick => (tick n, .success)
